@@ -168,6 +168,56 @@ def _extpair_one(item):
     return item, "pkg", probs
 
 
+REDECL_KINDS = ["in", "out", "sig", "sig2", "inst", "binst", "bport", "arr"]
+
+
+def _redecl_one(item):
+    """A name declared twice in one module (step-wise refinement): kind k1, then kind k2; as the top module or one level down."""
+    import hdl21 as h
+
+    k1, k2, deep = item
+    try:
+        inv = h.Module(name="RInv")
+        inv.i, inv.o = h.Input(), h.Output()
+        bd = h.Bundle(name="RB")
+        bd.x, bd.y = h.Signal(), h.Signal(width=2)
+        c = h.Module(name="Stage")
+        c.i, c.o, c.w = h.Input(), h.Output(), h.Signal()
+
+        def mk(kind):
+            return {"in": lambda: h.Input(), "out": lambda: h.Output(), "sig": lambda: h.Signal(), "sig2": lambda: h.Signal(width=2),
+                    "inst": lambda: inv(i=c.i, o=c.w), "binst": lambda: bd(), "bport": lambda: bd(port=True),
+                    "arr": lambda: h.InstanceArray(of=inv, n=2)(i=c.i, o=c.w)}[kind]()
+
+        c.mid = mk(k1)
+        c.mid = mk(k2)
+        if k2 in ("in", "out", "sig"):
+            c.a = inv(i=c.i, o=c.mid)
+            c.b = inv(i=c.mid, o=c.o)
+        elif k2 == "sig2":
+            c.b = inv(i=c.mid[1], o=c.o)
+        elif k2 in ("binst", "bport"):
+            c.b = inv(i=c.mid.x, o=c.o)
+        else:
+            c.b = inv(i=c.w, o=c.o)
+        top = c
+        if deep:
+            top = h.Module(name="RTop")
+            top.x, top.y, top.z = h.Signal(), h.Signal(), h.Signal()
+            conns = dict(i=top.x, o=top.y)
+            if k2 in ("in", "out"):
+                conns["mid"] = top.z
+            elif k2 == "bport":
+                top.bb = bd()
+                conns["mid"] = top.bb
+            top.s = c(**conns)
+        pkg = h.to_proto(top)
+    except Exception as e:
+        return item, "raised:" + short_exc(e), None
+    probs = wfmod.wf(pkg) or wfmod.accepts(pkg)
+    return item, "pkg", probs
+
+
 def _mutant_one(item):
     """Single-fault mutants of family designs (the C02 corpus): whatever to_proto returns for them must still be well formed."""
     import hdl21 as h
@@ -285,6 +335,14 @@ def run(ctx):
         ctx.outcome(status.split(":")[0] + ":extpair")
         if status == "pkg" and probs:
             ctx.violation(dict(corpus="external_pairs", problem=classify(probs[0])), dict(extpair=list(item)), probs[:5])
+    # (c3b) names declared twice, every ordered pair of kinds
+    for item in _it.product(REDECL_KINDS, REDECL_KINDS, (False, True)):
+        it, status, probs = _redecl_one(item)
+        ctx.count(states=1, transitions=2, traces_validated_against_impl=1)
+        ctx.fam("redeclared_names", **{("pkg" if status == "pkg" else "raised"): 1})
+        ctx.outcome(status.split(":")[0] + ":redecl:" + item[1])
+        if status == "pkg" and probs:
+            ctx.violation(dict(corpus="redeclared", first=item[0], then=item[1], problem=classify(probs[0])), dict(redecl=list(item)), probs[:5])
     # (c4) single-fault mutants: ill-formed designs normally raise; anything returned must be well formed
     mitems = []
     for fname, stride in (("f1_expr", 60), ("f2_portrefs", 900), ("f4_bundles", 12), ("f5_arrays", 40), ("f7_hier", 400)):
@@ -333,6 +391,8 @@ def replay(body):
     elif "example" in c:
         _, _, out = _example_one(c["example"])
         probs = [p for (_k, _n, ps) in out for p in ps]
+    elif "redecl" in c:
+        probs = _redecl_one(tuple(c["redecl"]))[2]
     elif "extpair" in c:
         probs = _extpair_one(tuple(c["extpair"]))[2]
     elif c["item"][0] in ("float", "str", "int"):
